@@ -296,6 +296,8 @@ func tryFindPrefix(node *RegexNode, vsb *bytes.Buffer) bool {
 				// and the smallest amount of prefix that overlapped with all
 				// the previously seen branches.
 				addedLength = commonPrefixLen(vsbSlice, alternateSb.Bytes())
+				// later branches are compared with what ALL earlier ones share
+				vsbSlice = vsbSlice[:addedLength]
 			}
 
 			// Then cull back on what was added based on the other branches.
